@@ -21,6 +21,7 @@ var c01Plan = []planEntry{
 	{spaces.XRef, 5, 6},
 	{spaces.L, 3, 4},
 	{spaces.XList, 5, 6},
+	{spaces.XWs, 5, 6},
 }
 
 func init() {
